@@ -336,6 +336,8 @@ pub enum Kind {
     Zip(Ref, Ref),
     Join(Ref, Ref, JVar, Ship, Local, KeyFn, i64, KeyFn, i64),
     KJoin(Ref, Ref, JVar),
+    /// `KeyedStream::merge` (forward connection of two co-partitioned keyed streams)
+    KMerge(Ref, Ref),
     Route(Ref, Vec<(PredFn, i64)>),
     /// input, optional side input (used by `joinside` / `mergeside` body stages), loop
     Replay(Ref, Option<Ref>, LoopSpec),
@@ -365,7 +367,7 @@ impl Kind {
             | ReduceA(a, _) | GbFold(a, ..) | GbReduce(a, ..) | GbSum(a, ..) | GbCount(a, ..)
             | KWin(a, ..) | Route(a, _) | Sink(a) => vec![*a],
             Replay(a, sd, _) | Iterate(a, sd, _) => std::iter::once(*a).chain(sd.iter().copied()).collect(),
-            Merge(a, b) | Zip(a, b) | Join(a, b, ..) | KJoin(a, b, _) => vec![*a, *b],
+            Merge(a, b) | Zip(a, b) | Join(a, b, ..) | KJoin(a, b, _) | KMerge(a, b) => vec![*a, *b],
         }
     }
     /// number of output ports
@@ -382,7 +384,7 @@ impl Kind {
         use Kind::*;
         match self {
             GroupBy(..) | KeyBy(..) | KMap(..) | KFilter(..) | KFold(..) | KReduce(..) | GbFold(..)
-            | GbReduce(..) | GbSum(..) | GbCount(..) | KWin(..) | KJoin(..) => true,
+            | GbReduce(..) | GbSum(..) | GbCount(..) | KWin(..) | KJoin(..) | KMerge(..) => true,
             Join(_, _, _, ship, ..) => *ship == Ship::Hash,
             _ => false,
         }
@@ -543,6 +545,7 @@ impl Node {
             Zip(a, b) => p!("zip", a, b),
             Join(a, b, v, s, l, f1, k1, f2, k2) => p!("join", a, b, v, s, l, f1, k1, f2, k2),
             KJoin(a, b, v) => p!("kjoin", a, b, v),
+            KMerge(a, b) => p!("kmerge", a, b),
             Route(a, ps) => {
                 p!("route", a);
                 for (f, k) in ps {
@@ -626,6 +629,7 @@ impl Node {
                 t.int()?,
             ),
             "kjoin" => KJoin(t.rf()?, t.rf()?, JVar::parse(t.next()?)?),
+            "kmerge" => KMerge(t.rf()?, t.rf()?),
             "route" => {
                 let a = t.rf()?;
                 let mut ps = vec![];
@@ -701,7 +705,7 @@ impl Kind {
         match self {
             Iter(_) | Par(..) | ParU(..) => vec![],
             KMap(..) | KFilter(..) | KFold(..) | KReduce(..) | Unkey(_) | DropKey(_) | KWin(..) => vec![Some(true)],
-            KJoin(..) => vec![Some(true), Some(true)],
+            KJoin(..) | KMerge(..) => vec![Some(true), Some(true)],
             Sink(_) => vec![None],
             Merge(..) | Zip(..) | Join(..) => vec![Some(false), Some(false)],
             Replay(_, Some(_), _) | Iterate(_, Some(_), _) => vec![Some(false), Some(false)],
@@ -1255,6 +1259,10 @@ pub fn build_job(job: &Job, ctx: &StreamContext, batch: Batch) -> Vec<(usize, St
                     _ => erase_keyed(x.join_outer(y).map(|(_, (l, r))| pair(Val::opt(l), Val::opt(r)))),
                 })
             }
+            KMerge(x, y) => {
+                let (x, y) = (b.k(x), b.k(y));
+                SVal::K(erase_keyed(x.merge(y)))
+            }
             Route(a, ps) => {
                 let mut rb = b.p(a).route();
                 for p in &ps {
@@ -1318,11 +1326,13 @@ pub struct GenOpts {
     /// also generate `replication(Limited(k) | Host)` over forward links from an unlimited block (the
     /// shape of finding F4, fixed in /repo 3deb123); on by default
     pub limited_forward: bool,
+    /// one job in `kbin_every` gets a keyed-binary gadget (see `Gen::kbin_gadget`); 0 = never
+    pub kbin_every: u64,
 }
 
 impl Default for GenOpts {
     fn default() -> Self {
-        GenOpts { loops: true, windows: true, max_steps: 9, limited_forward: true }
+        GenOpts { loops: true, windows: true, max_steps: 9, limited_forward: true, kbin_every: 7 }
     }
 }
 
@@ -1720,6 +1730,106 @@ impl Gen {
         }
     }
 
+    /// A keyed stream with key function `(f, k)` built on the plain output `i` by one of the code paths
+    /// that establish co-partitioning by key: 0 = `group_by` (+ optional keyed map / filter / fold),
+    /// 1 = a two-phase aggregator (`group_by_fold/reduce/sum/count`), 2 = a hash-shipped join with
+    /// itself. Returns the index of the keyed output and the path name.
+    fn keyed_by_path(&mut self, rng: &mut Rng, i: usize, f: KeyFn, k: i64, path: u64) -> (usize, &'static str) {
+        let (r, inf) = self.outs[i];
+        let keyed = Info { keyed: true, rep: Rep::U, ordered: false, part: true, size: inf.size, consumers: 0 };
+        match path {
+            0 => {
+                self.add(Kind::GroupBy(r, f, k), vec![keyed]);
+                let mut j = self.outs.len() - 1;
+                match rng.below(4) {
+                    0 => {
+                        let (mf, mk) = gen_map(rng);
+                        self.add(Kind::KMap(self.outs[j].0, mf, mk), vec![keyed]);
+                        j = self.outs.len() - 1;
+                    }
+                    1 => {
+                        self.add(Kind::KFilter(self.outs[j].0, PredFn::Modnz, 5), vec![keyed]);
+                        j = self.outs.len() - 1;
+                    }
+                    2 => {
+                        self.add(Kind::KFold(self.outs[j].0, gen_agg(rng)), vec![keyed]);
+                        j = self.outs.len() - 1;
+                    }
+                    _ => {}
+                }
+                (j, "groupby")
+            }
+            1 => {
+                let kind = match rng.below(4) {
+                    0 => Kind::GbFold(r, f, k, gen_agg(rng)),
+                    1 => Kind::GbReduce(r, f, k, gen_agg(rng)),
+                    2 => Kind::GbSum(r, f, k),
+                    _ => Kind::GbCount(r, f, k),
+                };
+                self.add(kind, vec![keyed]);
+                (self.outs.len() - 1, "aggregate")
+            }
+            _ => {
+                let local = *rng.pick(Local::ALL);
+                self.add(Kind::Join(r, r, JVar::Inner, Ship::Hash, local, f, k, f, k), vec![Info { size: inf.size * 4, ..keyed }]);
+                (self.outs.len() - 1, "joinhash")
+            }
+        }
+    }
+
+    /// The keyed-binary gadget: two keyed streams with the SAME key function (>= 30 distinct keys, so
+    /// that two different hash functions disagree on most keys) produced by two — possibly different —
+    /// code paths, combined by a FORWARD keyed binary operator (`KeyedStream::join`, `join_outer`,
+    /// `merge` + keyed fold), which does no shuffle because it assumes co-partitioning.
+    fn kbin_gadget(&mut self, rng: &mut Rng) {
+        // inputs with many distinct values: fresh parallel / iterator sources
+        let n1 = rng.range(40, 160);
+        let n2 = rng.range(30, 120);
+        let plain = |size: usize, rep: Rep| Info { keyed: false, rep, ordered: false, part: false, size, consumers: 0 };
+        let lo = rng.range(-3, 5);
+        self.add(Kind::Par(lo, lo + n1), vec![plain(n1 as usize, Rep::U)]);
+        let i = self.outs.len() - 1;
+        let j = if rng.chance(1, 2) {
+            i
+        } else {
+            if rng.chance(1, 2) {
+                self.add(Kind::ParU(0, n2 as u64), vec![plain(n2 as usize, Rep::U)]);
+            } else {
+                let l: Vec<Val> = (0..n2).map(|x| Val::Int((x * 7) % 97 - 10)).collect();
+                self.add(Kind::Iter(l), vec![Info { ordered: true, ..plain(n2 as usize, Rep::One) }]);
+            }
+            self.outs.len() - 1
+        };
+        let (f, k) = *rng.pick(&[(KeyFn::Kself, 0), (KeyFn::Kmod, 41), (KeyFn::Kmod, 64), (KeyFn::Kpair, 31)]);
+        let (pa, pb) = match rng.below(8) {
+            0 | 1 => (0, 1),
+            2 | 3 => (1, 0),
+            4 => (0, 0),
+            5 => (1, 1),
+            6 => (2, rng.below(2)),
+            _ => (rng.below(2), 2),
+        };
+        let (a, _) = self.keyed_by_path(rng, i, f, k, pa);
+        let (b, _) = self.keyed_by_path(rng, j, f, k, pb);
+        let (ra, ia) = self.outs[a];
+        let (rb, ib) = self.outs[b];
+        let size = ia.size + ib.size;
+        let keyed = Info { size, ..ia };
+        match rng.below(3) {
+            0 => {
+                self.add(Kind::KJoin(ra, rb, JVar::Inner), vec![Info { size: size * 4, ..keyed }]);
+            }
+            1 => {
+                self.add(Kind::KJoin(ra, rb, JVar::Outer), vec![Info { size: size * 4, ..keyed }]);
+            }
+            _ => {
+                self.add(Kind::KMerge(ra, rb), vec![keyed]);
+                let m = self.outs.len() - 1;
+                self.add(Kind::KFold(self.outs[m].0, *rng.pick(&[Agg::Sum, Agg::Cnt, Agg::Max, Agg::Summod])), vec![keyed]);
+            }
+        }
+    }
+
     fn binary(&mut self, rng: &mut Rng) {
         let (Some(i), Some(j)) = (self.pick(rng, |_| true), self.pick(rng, |_| true)) else { return };
         let (a, b) = (self.outs[i].1, self.outs[j].1);
@@ -1775,6 +1885,9 @@ pub fn gen_job(rng: &mut Rng, opts: GenOpts) -> Job {
     g.source(rng);
     if rng.chance(2, 5) {
         g.source(rng);
+    }
+    if opts.kbin_every > 0 && rng.below(opts.kbin_every) == 0 {
+        g.kbin_gadget(rng);
     }
     let steps = rng.range(2, opts.max_steps.max(2) as i64);
     for _ in 0..steps {
@@ -2091,7 +2204,7 @@ pub fn outcome_lines(o: &Outcome) -> Vec<String> {
 
 /// Like `nvh::run_main`, but `cases` produces the whole list and `exec` runs on `threads` workers.
 pub fn run_main_par(
-    cases: impl Fn(u64, usize) -> Vec<(String, Case)>,
+    cases: impl Fn(u64, usize, &[String]) -> Vec<(String, Case)>,
     exec: impl Fn(&Case) -> Vec<String> + Send + Sync + 'static,
     threads: usize,
 ) {
@@ -2100,7 +2213,7 @@ pub fn run_main_par(
     install_panic_log();
     let cases: Vec<(String, Case)> = match &args.replay {
         Some(p) => read_cases(p),
-        None => cases(args.seed, args.cases),
+        None => cases(args.seed, args.cases, &args.extra),
     };
     let n = cases.len();
     let cases = Arc::new(cases);
